@@ -970,6 +970,10 @@ TEMPLATES = {
              ("A", 3, "", "ALA", 0, [("C", "C")]), ("A", 4, "", "GLY", 0, [("N", "N")])],
     "ins_twin": [("A", 1, "", "LIG", 1, [("C1", "C"), ("C2", "C")]), ("A", 1, "A", "LIG", 1, [("C1", "C"), ("C2", "C")])],
     "negid": [("a'", -3, "", "SER", 0, [("CB", "C"), ("OG", "O")]), ("a'", 0, "A", "A B", 1, [("_X", "X"), ("C", "C")])],
+    # names whose concatenations collide (seed C04-g: string keys without separator): LIG|1|12 = LIG|11|2, and the
+    # boundary between residue name and atom name shifted: LI|G1|2 = LIG|1|2
+    "numnames": [("A", 1, "", "LIG", 1, [("1", "C"), ("12", "C"), ("11", "C"), ("2", "C")])],
+    "shiftnames": [("A", 1, "", "LI", 1, [("G1", "C"), ("2", "C")]), ("A", 2, "", "LIG", 1, [("1", "C"), ("2", "C")])],
 }
 
 
